@@ -37,9 +37,9 @@ class Pair:
         self.model = LineProc([DRIVER_BIN]) if with_model else None
         self.log = []          # (op line, impl answer, model answer)
 
-    def op(self, line):
+    def op(self, line, model_line=None):
         i = self.impl.ask(line)
-        m = self.model.ask(line) if self.model else None
+        m = self.model.ask(model_line or line) if self.model else None
         self.log.append((line, i, m))
         return i, m
 
